@@ -47,7 +47,8 @@
 From Coq Require Import ZArith NArith List Bool Lia.
 From IRV Require Import Base.Exn Gen.C05Gen C05.Model C05.Proofs C05.Proofs2 C05.Proofs3 C05.Proofs4 C05.Proofs5 C05.Proofs6
      C05.Proofs7 C05.Proofs8 C05.Proofs9 C05.Proofs10 C05.Proofs11 C05.Proofs12 C05.Proofs13 C05.Proofs14 C05.Proofs15
-     C05.Proofs16 C05.Inline C05.InlineCert C05.InlinePass C05.Proofs17 C05.Proofs19 C05.Opsets.
+     C05.Proofs16 C05.Inline C05.InlineCert C05.InlinePass C05.Proofs17 C05.Proofs19 C05.Opsets
+     Gen.C05GenTrim Gen.C05GenOpsets C05.GenEquiv C05.GenEquivOpsets.
 Import ListNotations.
 Open Scope N_scope.
 
@@ -428,6 +429,28 @@ Proof.
   intros fuel m r op H Hin. eapply coveredb_sound; eauto.
 Qed.
 Print Assumptions C05_inline_merges_opset_imports.
+
+(* ---- per-run translations of pass bodies (Gen/C05GenTrim.v, Gen/C05GenOpsets.v are regenerated from /repo/src on every
+   run by a fail-closed ast -> Gallina translator) and their equivalence with the hand models the theorems above are about *)
+(* unused_removal.py::_remove_trailing_empty_inputs = Model.strip_trailing_none (what dce's trim_node applies), and its
+   return value says whether the list changed *)
+Theorem C05_trim_translation_equiv :
+  forall l : list (option N),
+    fst (gen_remove_trailing_empty_inputs l) = strip_trailing_none l
+    /\ snd (gen_remove_trailing_empty_inputs l) = negb (Nat.eqb (length (strip_trailing_none l)) (length l)).
+Proof. exact gen_trim_equiv. Qed.
+Print Assumptions C05_trim_translation_equiv.
+
+(* RemoveUnusedOpsetsPass._process_graph_like applied as call() applies it = Opsets.remove_unused_opsets *)
+Theorem C05_remove_unused_opsets_translation_equiv :
+  forall fuel pf om,
+  o_imports (remove_unused_opsets fuel pf om)
+  = fst (gen_process_graph_like (map op_domain (rec_ops fuel (o_model om) GMain)) (o_imports om)
+                                ([] :: map (fun fn => op_domain (f_id fn)) (m_funcs (o_model om))))
+  /\ (pf = true -> forall i, nth i (o_fimports (remove_unused_opsets fuel pf om)) []
+                             = fst (gen_process_graph_like (map op_domain (rec_ops fuel (o_model om) (GFunc i))) (nth i (o_fimports om) []) [[]])).
+Proof. exact remove_unused_opsets_is_translation. Qed.
+Print Assumptions C05_remove_unused_opsets_translation_equiv.
 
 (* 0f568df: the former witness (Identity of an outer-scope value as a subgraph output) is kept: outputs stay local *)
 Theorem C05_identity_elim_outer_scope_witness :
